@@ -92,3 +92,34 @@ func VerifC18CloneEncoder(e *Encoder, w io.Writer) *Encoder {
 	c.dynTab = verifC18CloneDT(&e.dynTab)
 	return c
 }
+
+// VerifC18RestoreDecoder overwrites dst's complete state (except the emit func)
+// with a copy of src's, reusing dst's storage. dst must not be src.
+func VerifC18RestoreDecoder(dst, src *Decoder) {
+	dst.emitEnabled, dst.maxStrLen, dst.firstField = src.emitEnabled, src.maxStrLen, src.firstField
+	dst.buf = nil
+	dst.saveBuf.Reset()
+	if src.saveBuf.Len() > 0 {
+		dst.saveBuf.Write(src.saveBuf.Bytes())
+	}
+	d, s := &dst.dynTab, &src.dynTab
+	d.size, d.maxSize, d.allowedMaxSize = s.size, s.maxSize, s.allowedMaxSize
+	d.table.ents = append(d.table.ents[:0], s.table.ents...)
+	d.table.evictCount = s.table.evictCount
+	if len(d.table.byName) > 0 {
+		clear(d.table.byName)
+	}
+	if len(d.table.byNameValue) > 0 {
+		clear(d.table.byNameValue)
+	}
+	if len(s.table.byName) > 0 {
+		for k, v := range s.table.byName {
+			d.table.byName[k] = v
+		}
+	}
+	if len(s.table.byNameValue) > 0 {
+		for k, v := range s.table.byNameValue {
+			d.table.byNameValue[k] = v
+		}
+	}
+}
